@@ -89,6 +89,11 @@ def step (s : St) (toks : List String) : St × String :=
         (r.1, s!"first:{r.2.1} last:{r.2.2}")
       else (s, "bad-op")
     | _, _ => (s, "bad-op")
+  | ["ctlunsub", pre, own] =>
+    -- subscribe / unsubscribe through the real control dispatcher on a private hub: monitor only
+    match pre.toNat?, own.toNat? with
+    | some a, some b => if a > 2000 || b = 0 || b > 64 then (s, "bad-op") else (s, "ok")
+    | _, _ => (s, "bad-op")
   | ["subfull", cap] =>
     -- a subscribe through the real control dispatcher on a connection whose push queue is full, then a
     -- publish that must complete: monitor only on a private hub, no state change
